@@ -492,6 +492,9 @@ fn gen_leaf_query(rng: &mut Rng, fields: &[(String, Kind)], used: &mut Vec<Strin
         qs.prefix += 1;
         let w = fresh(rng, used, &["r", "ru", "f", "in", "he", "w"])?;
         // expansions of the prefix are scored terms too
+        if WORDS.iter().any(|x| x.starts_with(&w) && used.contains(&format!("{f}:{x}"))) {
+          return None;
+        }
         for x in WORDS.iter().filter(|x| x.starts_with(&w)) {
           used.push(format!("{f}:{x}"));
         }
@@ -699,8 +702,11 @@ fn hits(reader: &searchlite_core::api::reader::IndexReader, req: Value, filter: 
       ids.sort();
       ids
     }
-    Err(_) => {
+    Err(e) => {
       *errors += 1;
+      if *errors <= 3 {
+        eprintln!("query error: {e}");
+      }
       vec![ERR_HIT]
     }
   }
